@@ -447,6 +447,7 @@ def run_sequence(rec, pool, pr, rnd, nops, tmp, fresh_rate):
     cur, handle, mode, prev_kind = None, None, 'first_match', None
     rows = ROWS7
     names = sorted(pool['files'])
+    shared_rows = None
     flood_at = rnd.randrange(nops) if rnd.random() < .25 else -1
     flood_salt = rnd.randrange(10 ** 6)
     flooded = []
@@ -544,6 +545,16 @@ def run_sequence(rec, pool, pr, rnd, nops, tmp, fresh_rate):
                 op = 'classify'
             rows_here = rows if rnd.random() < .75 else None          # a caller without supplemental data (the default of normalize_merchant)
             rules_snap, rows_live = typed_snapshot(handle[0]), copy.deepcopy(rows_here)
+            if rows_here is not None and rnd.random() < .3:
+                # the caller keeps ONE mapping of supplemental sources for the whole run and replaces a source in it (an export that was read again):
+                # the classification that follows sees the mapping as it is NOW
+                if shared_rows is None:
+                    shared_rows = copy.deepcopy(ROWS7)
+                src = rnd.choice(['events', 'events2', 'events3'])
+                base = copy.deepcopy(ROWS7[src])
+                shared_rows[src] = rnd.choice([[], base[::-1], base[1:], [dict(r, when=date(2025, 1, 20)) for r in base], [dict(r, item='UBER', amt=7.0) for r in base], base])
+                rows_here, rows_live = shared_rows, shared_rows
+                rec.count('classifications_after_replacing_a_supplemental_source_in_place')
             rows_snap = typed_snapshot(rows_live)
             cached_before = len(ep._expression_cache)
             earlier = []
